@@ -332,6 +332,8 @@ impl<N> AstChildren<N> {
     tk.item('enum', 'CommentShape')
     tk.item('enum', 'Radix')
     U.raw(ast_text, note='generated AST view: %d node types, %d accessors' % (n_nodes, n_acc))
+    for _gf in ('nodes.rs', 'tokens.rs'):
+        U.file('crates/oq3_syntax/src/ast/generated/' + _gf).guard_file('generated typed-AST accessors / casts: the analyser model sees them as opaque functions of the node; pinned as a whole')
     U.raw('}\npub mod semantic_error {\nuse vstd::prelude::*;\n')
     U.file(ERR).item('enum', 'SemanticErrorKind')
     U.raw('''/// semantic_error.rs: the diagnostics of one file, and (nested) those of the files it includes (opaque)
